@@ -61,7 +61,7 @@ theorem pkgFileToks_inside (sname : Bytes) (total : Nat) : ∀ (toks : List Byte
 /-- whatever the input line, a stream without error has this shape -/
 theorem pkgParseStream_shape (line : Bytes) (h : (pkgParseStream line).err = false) :
     ∃ s : Stream, pkgParseStream line = toPStream s ∧ (∀ b ∈ s.blocks, b.size < two63) ∧
-      ∀ f ∈ s.files, f.pos + f.len ≤ (offsetsFrom 0 s.blocks).getLastD 0 ∧
+      streamLen s.blocks < two64 ∧ ∀ f ∈ s.files, f.pos + f.len ≤ (offsetsFrom 0 s.blocks).getLastD 0 ∧
         (f.len > 0 → fixStreamName (pathOf s.name f.name) = pathOf s.name f.name) := by
   unfold pkgParseStream at h ⊢
   cases hs : splitOn bSpace line with
@@ -80,6 +80,9 @@ theorem pkgParseStream_shape (line : Bytes) (h : (pkgParseStream line).err = fal
         | some blocks =>
           rw [hpb] at h
           simp only [] at h ⊢
+          by_cases hov : streamLen blocks ≥ two64
+          · rw [if_pos hov] at h; simp at h
+          rw [if_neg hov] at h ⊢
           by_cases hf : toks.dropWhile isGoLocator = []
           · rw [if_pos hf] at h; simp at h
           · rw [if_neg hf] at h ⊢
@@ -88,13 +91,8 @@ theorem pkgParseStream_shape (line : Bytes) (h : (pkgParseStream line).err = fal
               rw [hft] at h
               simp only [] at h ⊢
               subst h
-              exact ⟨⟨pkgUnescape nm, blocks, files⟩, rfl, pkgBlocks_sizes _ _ hpb,
+              exact ⟨⟨pkgUnescape nm, blocks, files⟩, rfl, pkgBlocks_sizes _ _ hpb, Nat.lt_of_not_ge hov,
                 pkgFileToks_inside _ _ _ _ _ hft⟩
-
-/-- no uint64 wrap-around of the stream length: the block sizes of the stream add up to less than
-2^64 (finding F10d lives outside this condition; since fix 4f92334 no condition on file tokens is
-needed) -/
-def NoWrap64 (ps : PStream) : Prop := streamLen ps.blocks < two64
 
 /-- stream and file names in the canonical form `fixStreamName` leaves alone (since fix b1a09e4
 the parser enforces this for every non-empty token; the condition still matters for zero-length
@@ -106,14 +104,13 @@ def CleanNames (ps : PStream) : Prop :=
 /-- the structured stream a parsed stream stands for -/
 def ofPStream (ps : PStream) : Stream := ⟨ps.name, ps.blocks, ps.files⟩
 
-theorem pstream_fit (line : Bytes) (h : (pkgParseStream line).err = false) (hw : NoWrap64 (pkgParseStream line)) :
+theorem pstream_fit (line : Bytes) (h : (pkgParseStream line).err = false) :
     pkgParseStream line = toPStream (ofPStream (pkgParseStream line)) ∧ PkgFit (ofPStream (pkgParseStream line)) := by
-  obtain ⟨s, hs, h1, h2⟩ := pkgParseStream_shape line h
-  rw [hs] at hw ⊢
+  obtain ⟨s, hs, h1, hw, h2⟩ := pkgParseStream_shape line h
+  rw [hs]
   have e : ofPStream (toPStream s) = s := rfl
   rw [e]
-  have w1' : streamLen s.blocks < two64 := hw
-  refine ⟨rfl, h1, w1', ?_⟩
+  refine ⟨rfl, h1, hw, ?_⟩
   intro f hf
   have := (h2 f hf).1
   rw [offsetsFrom_eq_plain s.blocks 0 (by omega), plainOffsets_last] at this
@@ -137,7 +134,7 @@ theorem segmentStream_ok (s : Stream) (hw : PkgFit s) :
       simp only [Res.bind]
       exact segmentStream_ok s hw rest _ _
 
-/-- **No panic on any text without uint64 wrap-around.** -/
+/-- no stream of this shape makes `segment()` panic -/
 theorem segmentStreams_no_panic : ∀ (L : List PStream) (m : SegMap),
     (∀ ps ∈ L, ps.err = false → ps = toPStream (ofPStream ps) ∧ PkgFit (ofPStream ps)) →
     segmentStreams firstBlock L m ≠ .panic
